@@ -2,7 +2,7 @@
 use super::*;
 use crate::kani_support::*;
 
-// @ob id=C15.1a strength=complete tier=quick fn=track/sub/spatial_builder.rs::SpatialTrackDistances::relative_distance
+// @ob id=C15.1a strength=complete tier=quick timeout=2400 fn=track/sub/spatial_builder.rs::SpatialTrackDistances::relative_distance
 // @req finite 0 <= min < max <= 1e6 (excludes findings F9: min > max or NaN, and F10: min == max); any non-NaN distance (including +inf)
 // @ens result in [0,1]; exactly 0 at or inside the minimum distance; exactly 1 at or beyond the maximum distance
 #[kani::proof]
@@ -21,13 +21,13 @@ fn c15_1a_relative_distance_range() {
     kani::cover!(d > max);
 }
 
-// @ob id=C15.1b strength=bounded tier=quick bound="min, max, distances restricted to 6 significant mantissa bits" fn=track/sub/spatial_builder.rs::SpatialTrackDistances::relative_distance
+// @ob id=C15.1b strength=bounded tier=thorough timeout=7200 bound="min, max, distances restricted to 4 significant mantissa bits" fn=track/sub/spatial_builder.rs::SpatialTrackDistances::relative_distance
 // @req 0 <= min < max <= 1e6, d1 <= d2
 // @ens relative distance is non-decreasing in the distance (so the attenuation is non-increasing)
 #[kani::proof]
 #[kani::unwind(3)]
 fn c15_1b_relative_distance_monotone() {
-    let m = (1u32 << 17) - 1;
+    let m = (1u32 << 19) - 1;
     let min = any_f32_in(0.0, 1.0e6);
     let max = any_f32_in(0.0, 1.0e6);
     let d1 = any_f32_in(0.0, 1.0e7);
